@@ -20,11 +20,11 @@ SPEC = os.path.join(V.SPEC, "Lsp")
 FILES = {"main": "main.asm", "inc": "inc.asm", "other": "other.asm", "cfg": "mos.toml"}
 
 TEXTS = {
-    "ma": '.import * from "inc.asm"\nfoo: {\n  lda bar // é汉 x\n  bar: nop\n}\n  lda foo.bar\n  sta ext\n',
-    "mb": '/// entry\nfoo: {\n  lda baz\n  baz: rts\n}\nfoo2: lda foo.baz // ü\U0001F600 tail\n.const c1 = 4 /* é\n é */ + 2\n  ldx #c1\n.const seg = "default"\nsc: {\n  .const seg = "default"\n  .segment seg {\n    tbl: .byte 1, 2\n  }\n}\n',
+    "ma": '.import * from "inc.asm"\nfoo: {\n  lda bar // é汉 x\u2192y\n  bar: nop\n}\n  lda foo.bar\n  sta ext\n',
+    "mb": '/// entry\nfoo: {\n  lda baz\n  baz: rts\n}\nfoo2: lda foo.baz // ü\U0001F600 tail \u2192here\u2026\n.const c1 = 4 /* é\n é */ + 2\n  ldx #c1\n.const seg = "default"\nsc: {\n  .const seg = "default"\n  .segment seg {\n    tbl: .byte 1, 2\n  }\n}\n',
     "mx": '.import * from "inc.asm"\nfoo: {\n  lda (\n  bar: nop\n}\n  sta ext\n',
     "ia": "ext: nop\n",
-    "ib": ".import * from \"inc2.asm\"\n/// doc ñ\next: rts\nother2: .byte 1 // ñ\n.segment \"default\" {\n  itbl: .byte 3\n}\n  lda deep\n.test \"t1\" {\n  brk\n}\n",
+    "ib": ".import * from \"inc2.asm\"\n/// doc ñ\next: rts\nother2: .byte 1 // ñ \u2014dash\n.segment \"default\" {\n  itbl: .byte 3\n}\n  lda deep\n.test \"t1\" {\n  brk\n}\n",
     "i2": "deep: rts // ü second import level\n",
     "ir": ".import * from \"main.asm\"\next: nop\n",        # imports the entry file: a cycle as soon as main imports inc
     "ca": '[build]\nentry = "main.asm"\n',
@@ -58,9 +58,28 @@ def inrange_position(text, rnd):
     return ln, rnd.randrange(n + 1)
 
 
+def mbdelim_positions(text):
+    """Positions inside or at the end of a word that directly follows a multi-byte delimiter (an arrow, a dash, an ellipsis, an
+    emoji), or at the end of a line that ends in one: the word start is looked up behind that delimiter (Lsp.tla: wsmb)."""
+    cand = []
+    for i, l in enumerate(text.split("\n")):
+        l = l.rstrip("\r")
+        for j, c in enumerate(l):
+            if ord(c) > 127 and not c.isalnum():
+                e = j + 1
+                while e < len(l) and (l[e].isalnum() or l[e] == "_"):
+                    e += 1
+                cand += [(i, x) for x in range(j + 1, e + 1)]
+    return cand
+
+
 def wild_position(text, rnd):
     lines = text.split("\n")
-    k = rnd.randrange(8)
+    k = rnd.randrange(10)
+    if k in (8, 9):
+        cand = mbdelim_positions(text)
+        if cand:
+            return cand[rnd.randrange(len(cand))]
     if k == 0:
         return len(lines) + rnd.randrange(3), rnd.randrange(3)                      # past the end of the file
     if k == 1:
@@ -417,7 +436,7 @@ def random_script(rnd, n, layout="A"):
 
 ALL_DEVS = ["MalformedParamsPanic", "UnknownRequestNeverAnswered", "NonUtf8PathPanics", "WorkspaceSymbolRecursesImports", "SemanticTokenPastEndOfLine", "CodeLensOfImportedTests",
             "CloseDoesNotReanalyse", "RenameTaintsCache", "StaleDiagnosticsForDroppedFile", "PrepareRenameSlicesPastEol", "SourceLinePastEof", "CompletionSplitsInsideChar",
-            "DidChangeFirstEntryWins", "NonFileUriPanics"]
+            "DidChangeFirstEntryWins", "NonFileUriPanics", "PrepareRenameWordStartInsideChar"]
 
 
 def design_level(rep, tier, open_devs):
@@ -503,6 +522,15 @@ def main(tier):
              [("open", "main.asm", "ma", TEXTS["ma"]), ("req", "completion", "main.asm", TEXTS["ma"].count("\n"), 0)],
              [("open", "main.asm", "ma", TEXTS["ma"]), ("req", "completion", "main.asm", 400, 0)],
              [("open", "main.asm", "ma", TEXTS["ma"]), ("req", "completion", "main.asm", 2, 15)]]
+    # every position whose word start lies behind a multi-byte delimiter: prepareRename one by one (a death ends a session), the other
+    # positional requests in one session each
+    for t in ("ma", "mb"):
+        ot = ("open", "main.asm", t, TEXTS[t])
+        for ln, ch in mbdelim_positions(TEXTS[t]):
+            fixed.append([ot, ("req", "prepareRename", "main.asm", ln, ch)])
+        for kind in sorted(L.POS_KINDS):
+            if kind not in ("prepareRename", "rename"):
+                fixed.append([ot] + [("req", kind, "main.asm", ln, ch) for ln, ch in mbdelim_positions(TEXTS[t])])
     scripts = [("fixed", sc, "A") for sc in fixed] + [("tlc", script_of_hist(h), lay) for lay, h in hists] + [("sim", script_of_hist(h), lay) for lay, h in longer]
     nty, nrand = (60, 120) if tier == "quick" else (600, 1000)
     scripts += [("typing", typing_script(rnd, i), "A") for i in range(nty)]
